@@ -3,11 +3,13 @@ package c15
 
 import (
 	"bytes"
+	"encoding/json"
 	"fmt"
 	"os"
 	"path/filepath"
 	"sort"
 	"strings"
+	"sync"
 
 	"github.com/jhalter/mobius/verifshim"
 	"golang.org/x/crypto/bcrypt"
@@ -22,8 +24,102 @@ import (
 func init() {
 	core.Register(&core.Simple{
 		Id: "C15", Lvl: "exploration", Quick: 160, Thorough: 4000, PerBatch: 40, Width: 16, Timeout: 1500,
-		RuleText: "each case is a history of 12-25 account-management requests sent by an administrator through the real connection loop (new-user, set-user, delete-user, update-user batches mixing create/modify/rename/delete; logins, names and passwords drawn from byte strings that are legal file names incl. spaces, YAML-significant text, leading/trailing blanks, high bytes, up to 200 bytes; password field = new / one-zero-byte 'unchanged' marker / absent); after every step a reference model is compared with (1) login attempts for every login ever used with its current and formerly used passwords, (2) list-users and get-user replies, (3) the parsed account files, (4) a second account manager loaded from the directory. distinct = (multiset of operation kinds in the history); non-trivial = history contains a rename, delete or password change",
-		Case: runCase,
+		RuleText: "each case is a history of 12-25 account-management requests sent by an administrator through the real connection loop (new-user, set-user, delete-user, update-user batches mixing create/modify/rename/delete; logins, names and passwords drawn from byte strings that are legal file names incl. spaces, YAML-significant text, leading/trailing blanks, high bytes, up to 200 bytes; password field = new / one-zero-byte 'unchanged' marker / absent); after every step a reference model is compared with (1) login attempts for every login ever used with its current and formerly used passwords, (2) list-users and get-user replies, (3) the parsed account files, (4) a second account manager loaded from the directory. a stress batch lets five administrators create the same fresh login at the same moment (exactly one may win, and memory, file and restart must show the winner's data). distinct = (multiset of operation kinds in the history); non-trivial = history contains a rename, delete or password change",
+		Case:     runCase,
+		Extra: func(tier string, seed int64) []core.Batch {
+			n := 40
+			if tier == "thorough" {
+				n = 800
+			}
+			a, _ := json.Marshal(map[string]int{"rounds": n})
+			return []core.Batch{{Name: "concurrent-create", Args: a, Timeout: 1200}}
+		},
+		RunExtra: runConcurrent,
+	})
+}
+
+// runConcurrent: several administrators create the SAME fresh login at the same moment with different names and
+// passwords. Exactly one request may succeed, and that winner's name and password must be what can log in, what is
+// listed, what the file holds and what a restart yields.
+func runConcurrent(b core.Batch, em *core.Emitter) {
+	var a struct {
+		Rounds int `json:"rounds"`
+	}
+	json.Unmarshal(b.Args, &a)
+	id := "C15/concurrent-create"
+	core.SafeCase(em, id, func() {
+		em.Begin(id, nil)
+		srv, err := fixture.New(fixture.Options{})
+		if err != nil {
+			em.Emit(core.Result{Case: id, Verdict: core.Inconclusive, Msg: err.Error()})
+			return
+		}
+		defer srv.Close()
+		const k = 5
+		var admins []*refclient.Client
+		for i := 0; i < k; i++ {
+			cl, err := refclient.LoginAs(srv, fmt.Sprintf("10.15.200.%d:1", i+1), "admin", "", fmt.Sprintf("Adm%d", i))
+			if err != nil {
+				em.Emit(core.Result{Case: id, Verdict: core.Inconclusive, Msg: err.Error()})
+				return
+			}
+			admins = append(admins, cl)
+		}
+		res := core.Result{Case: id, Class: "concurrent-create", Verdict: core.Held, Obs: map[string]int{}, Sample: map[string]any{"administrators": k, "rounds": a.Rounds}}
+		dir := filepath.Join(srv.ConfigDir, "Users")
+		for round := 0; round < a.Rounds && res.Verdict == core.Held; round++ {
+			login := fmt.Sprintf("race%04d", round)
+			okc := make([]bool, k)
+			var wg sync.WaitGroup
+			start := make(chan struct{})
+			for i := 0; i < k; i++ {
+				wg.Add(1)
+				go func(i int) {
+					defer wg.Done()
+					<-start
+					rep, ok := admins[i].CallDirect(350, rc.F(105, rc.Obfuscate([]byte(login))), rc.FS(102, fmt.Sprintf("name-of-%d", i)), rc.F(106, rc.Obfuscate([]byte(fmt.Sprintf("pw-of-%d", i)))), rc.F(110, rc.Bitmap(2, 9)))
+					okc[i] = ok && rep.Err == 0
+				}(i)
+			}
+			close(start)
+			wg.Wait()
+			winners := []int{}
+			for i, o := range okc {
+				if o {
+					winners = append(winners, i)
+				}
+			}
+			res.Obs["concurrent_create_rounds"]++
+			if len(winners) != 1 {
+				res.Verdict, res.Key = core.Violated, "C15/concurrent-create/winners"
+				res.Msg = fmt.Sprintf("round %d: %d of %d concurrent creations of login %q were acknowledged as successful", round, len(winners), k, login)
+				break
+			}
+			wn := winners[0]
+			acc := srv.S.AccountManager.Get(login)
+			raw, _ := os.ReadFile(filepath.Join(dir, login+".yaml"))
+			var doc struct {
+				Name     string `yaml:"Name"`
+				Password string `yaml:"Password"`
+			}
+			yaml.Unmarshal(raw, &doc)
+			wantName, wantPW := fmt.Sprintf("name-of-%d", wn), fmt.Sprintf("pw-of-%d", wn)
+			memOK := acc != nil && acc.Name == wantName && bcrypt.CompareHashAndPassword([]byte(acc.Password), rc.Obfuscate([]byte(wantPW))) == nil
+			diskOK := doc.Name == wantName && bcrypt.CompareHashAndPassword([]byte(doc.Password), rc.Obfuscate([]byte(wantPW))) == nil
+			if !memOK || !diskOK {
+				res.Verdict, res.Key = core.Violated, "C15/concurrent-create/winner-differs"
+				res.Msg = fmt.Sprintf("round %d: administrator %d's creation of %q was acknowledged; in memory the account matches it: %v; the account file matches it: %v (file name field %q)", round, wn, login, memOK, diskOK, doc.Name)
+			}
+		}
+		if res.Verdict == core.Held {
+			if m2, err := verifshim.NewYAMLAccountManager(dir); err != nil {
+				res.Verdict, res.Key, res.Msg = core.Violated, "C15/concurrent-create/restart", "restart after concurrent creations: "+err.Error()
+			} else if len(m2.List()) != len(srv.S.AccountManager.List()) {
+				res.Verdict, res.Key, res.Msg = core.Violated, "C15/concurrent-create/restart", fmt.Sprintf("restart yields %d accounts, the running server has %d", len(m2.List()), len(srv.S.AccountManager.List()))
+			}
+		}
+		em.Emit(res)
+		em.Emit(core.Result{Case: id + "/rounds", Class: "concurrent-create-rounds", Verdict: core.Held})
 	})
 }
 
